@@ -546,12 +546,28 @@ def tree_size(tree):
     return len(subtrees(tree))
 
 
+def unprintable_power(d, defs_h):
+    """is the dimension d an exact power k of some defined compound with denominator(k) > 10?
+    `__power_num2str` prints exponents with `limit_denominator(10)`, so such a power cannot be
+    shown exactly (display precision of the library, outside the domain of C13/C18)"""
+    for name in defs_h:
+        ex = {k: v for k, v in expand([(name, F(1))], defs_h).items() if v != 0}
+        if not ex or set(ex) != set(d):
+            continue
+        ks = {d[s] / ex[s] for s in ex}
+        if len(ks) == 1 and next(iter(ks)).denominator > 10:
+            return True
+    return False
+
+
 def judge_eval(pid, tree, defs_h, o, m=None):
     """judge one evaluated tree.  defs_h: harness definitions {name: [(sym, F)]};
     o: observe_tree output; m: model reply or None.  Returns list of failures."""
     fails = []
     want = dim_tree(tree, defs_h)
     p = pid.lower()
+    if want[0] == "ok" and unprintable_power(want[1], defs_h):
+        return []   # the exact power of a named unit has a denominator > 10: not printable
     root = tree[1] if tree[0] == "node" else tree[0]
     base = {"input": pretty_tree(tree), "tree": tree}
 
